@@ -378,6 +378,20 @@ def get_container(box):
     return getattr(get_detector(box), box["kind"])
 
 
+def canon_bytes(v):
+    """the bytes of an array with every NaN replaced by the one canonical NaN of its dtype (a NaN's sign / payload bits are
+    not values: they change, e.g., when a cube goes through a file)"""
+    import numpy as np
+
+    v = np.ascontiguousarray(v)
+    if v.dtype.kind in "fc":
+        m = np.isnan(v)
+        if m.any():
+            v = v.copy()
+            v[m] = np.nan
+    return v.tobytes()
+
+
 def snapshot(c):
     """what the public attributes show: None (reading raises) or a description of the held object"""
     import numpy as np
@@ -399,11 +413,11 @@ def snapshot(c):
         wl = x.coords["wavelength"].values.tolist() if "wavelength" in x.coords else None
         return {"type": "DataArray", "is3d": True, "shape": list(x.shape), "dt": lean_dt(x.dtype), "npdt": str(x.dtype),
                 "dims": list(map(str, x.dims)), "wl": wl,
-                "sha": hashlib.sha1(v.tobytes()).hexdigest(), "neg": has_neg(v)}
+                "sha": hashlib.sha1(canon_bytes(v)).hexdigest(), "neg": has_neg(v)}
     if isinstance(x, np.ndarray):
         v = np.ascontiguousarray(x)
         try:
-            raw = v.tobytes() if v.dtype.kind != "O" else repr(v.tolist()).encode()
+            raw = canon_bytes(v) if v.dtype.kind != "O" else repr(v.tolist()).encode()
         except Exception:  # noqa: BLE001
             raw = b"?"
         return {"type": "ndarray", "is3d": False, "shape": list(x.shape), "dt": lean_dt(x.dtype), "npdt": str(x.dtype),
@@ -526,7 +540,7 @@ def model_state_matches(mstate, istate, descs, rows, cols):
     v = np.ascontiguousarray(x.values if isinstance(x, xr.DataArray) else x)
     if str(v.dtype) != istate["npdt"] or list(v.shape) != istate["shape"]:
         return False
-    return hashlib.sha1(v.tobytes()).hexdigest() == istate["sha"]
+    return hashlib.sha1(canon_bytes(v)).hexdigest() == istate["sha"]
 
 
 # ------------------------------------------------------------------ the statement, on the implementation
@@ -620,7 +634,7 @@ def property_predicate(box, impl):
             if kind == "photon":
                 v = np.clip(v, 0.0, None)
             v = np.ascontiguousarray(v)
-            if st is None or st.get("sha") != hashlib.sha1(v.tobytes()).hexdigest():
+            if st is None or st.get("sha") != hashlib.sha1(canon_bytes(v)).hexdigest():
                 bad.append((f"C13:assignment-not-stored:{kind}", f"op #{i} {name} succeeded but the container does not hold the assigned values", i))
         # emptiness bookkeeping from the statement
         if out == "ok":
